@@ -9,10 +9,10 @@ Open Scope Z_scope.
 Definition v_env : env := mkEnv [1%positive; 2%positive] [].
 Definition v_objs : list hobj :=
   [ mkObj 1 1 []; mkObj 1 1 [MNode 1];
-    mkObj 5 1 []; mkObj 5 1 [MNode 2];
-    mkObj 2 2 []; mkObj 2 2 [MHyper 1]; mkObj 2 2 [MHyper 1; MHyper 5]; mkObj 2 2 [MHyper 5];
+    mkObj 5 1 [MNode 2];
+    mkObj 2 2 []; mkObj 2 2 [MHyper 1]; mkObj 2 2 [MHyper 1; MHyper 5];
     mkObj 3 3 []; mkObj 3 3 [MHyper 2]; mkObj 3 3 [MHyper 2; MHyper 5];
-    mkObj 4 4 []; mkObj 4 4 [MHyper 3]; mkObj 4 4 [MHyper 3; MHyper 5]; mkObj 4 4 [MHyper 2] ]%positive.
+    mkObj 4 4 []; mkObj 4 4 [MHyper 3]; mkObj 4 4 [MHyper 3; MHyper 5] ]%positive.
 Definition v_alphabet : list event :=
   map EUpd v_objs ++ [EDel 1; EDel 2; EDel 3; EDel 4; EDel 5]%positive.
 Definition v_reach : list cfg :=
